@@ -127,13 +127,15 @@ func (w *Writer) Close() error {
 		return w.closeErr
 	}
 
+	// The compressor goes back to its pool exactly once, whatever Close
+	// reports: a later Close returns the recorded error.
+	w.closed = true
 	defer sync.PutZlibWriter(w.zlib)
 	if err := w.zlib.Close(); err != nil {
 		w.closeErr = err
 		return err
 	}
 
-	w.closed = true
 	if w.pending != 0 {
 		w.closeErr = ErrShortObject
 		return w.closeErr
